@@ -369,7 +369,16 @@ func LAccesses(p *Prog, fns []*ssa.Function) []LAccess {
 					} else if u, ok := x.Map.(*ssa.UnOp); ok && u.Op == token.MUL {
 						if loc, ok := longLivedFieldRef(p, u.X); ok {
 							add(in, loc, true, "map assignment", "")
+							continue
 						}
+					}
+					// the map is (part of) what a package-level variable holds, reached through a by-value copy of the variable
+					// or a helper that hands such a copy out: a struct copy shares its maps with the original
+					if o == nil {
+						o = NewOrigin(p, fn)
+					}
+					if g := aliasedGlobal(p, o.Of(x.Map)); g != "" && !isInitFunc(fn) {
+						add(in, "global:"+g, true, "map assignment through a copy of the variable (the copy shares the map)", "")
 					}
 				case *ssa.UnOp:
 					if x.Op != token.MUL {
@@ -477,6 +486,30 @@ func LAccesses(p *Prog, fns []*ssa.Function) []LAccess {
 		return out[i].Fn.String() < out[j].Fn.String()
 	})
 	return out
+}
+
+// aliasedGlobal: t denotes (a component of) the content of a module package-level variable — a chain of field selections,
+// dereferences and value copies down to the variable, with no call in between. Returns the variable's name.
+func aliasedGlobal(p *Prog, t *Term) string {
+	for i := 0; i < 12 && t != nil; i++ {
+		switch t.Op {
+		case "gval", "global":
+			if i := strings.LastIndex(t.Name, "."); i > 0 {
+				if _, isMod := p.All[ModPath+"/"+t.Name[:i]]; isMod || strings.HasPrefix(t.Name, "pverif/fixture/") {
+					return t.Name
+				}
+			}
+			return ""
+		case "field", "deref", "addr", "fieldaddr":
+			if len(t.Args) == 0 {
+				return ""
+			}
+			t = t.Args[0]
+		default:
+			return ""
+		}
+	}
+	return ""
 }
 
 func InModulePkg(pk *ssa.Package) bool {
@@ -643,4 +676,83 @@ func statefulLibrary(name string) string {
 		}
 	}
 	return ""
+}
+
+// ---------------------------------------------------------------------------------------------
+// Foreign objects consulted without a context.
+//
+// Block-processing code reads consensus state through a Context (stores, block header). A method called on an object that a
+// long-lived module struct holds (a keeper field), implemented outside the module and given no Context, cannot read the stores
+// at the block being processed: whatever it answers comes from the process's own memory (wiring-time configuration at best, a
+// value some earlier call left there at worst). The few such objects the module legitimately uses are listed with the reason.
+
+var contextFreeForeign = map[string]string{
+	"sdk/codec.Codec":            "stateless (de)serialisation over the interface registry fixed at wiring time",
+	"sdk/codec.BinaryCodec":      "stateless (de)serialisation over the interface registry fixed at wiring time",
+	"sdk/codec.JSONCodec":        "stateless (de)serialisation over the interface registry fixed at wiring time",
+	"*sdk/codec.LegacyAmino":     "stateless (de)serialisation over the type table sealed at start-up",
+	"*sdk/codec.ProtoCodec":      "stateless (de)serialisation over the interface registry fixed at wiring time",
+	"sdk/x/params/keeper.Keeper": "Subspace/GetSubspaces hand out the subspace table built at wiring time; values are read with a Context",
+}
+
+type foreignCall struct {
+	Fn    *ssa.Function
+	Instr ssa.CallInstruction
+	Loc   string
+	Recv  string
+	Name  string
+}
+
+// contextFreeForeignCalls lists the calls in fns on an object held in a long-lived field, implemented outside the module, that
+// receive no Context. allowed tells whether the receiver type is in the reviewed table.
+func contextFreeForeignCalls(p *Prog, fns []*ssa.Function) (bad, allowed []foreignCall) {
+	for _, fn := range fns {
+		if fn.Blocks == nil || p.IsGenerated(fn) || isInitFunc(fn) {
+			continue
+		}
+		for _, cs := range callSites(fn) {
+			cc := cs.Instr.Common()
+			if cs.Callee != nil && InModule(cs.Callee) {
+				continue
+			}
+			var recv ssa.Value
+			if cc.IsInvoke() {
+				recv = cc.Value
+			} else if cs.Callee != nil && cs.Callee.Signature.Recv() != nil && len(cc.Args) > 0 {
+				recv = cc.Args[0]
+			}
+			if recv == nil {
+				continue
+			}
+			hasCtx := false
+			for _, a := range cc.Args {
+				if ts := a.Type().String(); strings.HasSuffix(ts, "/types.Context") || ts == "context.Context" {
+					hasCtx = true
+				}
+			}
+			if hasCtx {
+				continue
+			}
+			loc := ""
+			if u, ok := recv.(*ssa.UnOp); ok && u.Op == token.MUL {
+				if l, ok := longLivedFieldRef(p, u.X); ok {
+					loc = l
+				}
+			}
+			if l, ok := longLivedField(p, recv); ok {
+				loc = l
+			}
+			if loc == "" {
+				continue
+			}
+			rt := shortPkg(recv.Type().String())
+			fc := foreignCall{Fn: fn, Instr: cs.Instr, Loc: loc, Recv: rt, Name: cs.Name}
+			if _, ok := contextFreeForeign[rt]; ok {
+				allowed = append(allowed, fc)
+			} else {
+				bad = append(bad, fc)
+			}
+		}
+	}
+	return
 }
